@@ -1,0 +1,40 @@
+package handlers
+
+import "net/http"
+
+// responseStartTracker remembers whether anything (status line, headers or body
+// bytes) has been committed to the client. Once a backend's response has started
+// the handler must not append an error page of its own to it; looking at the
+// Content-Type header is not enough, because a backend may not declare one.
+type responseStartTracker struct {
+	http.ResponseWriter
+	started bool
+}
+
+func (t *responseStartTracker) WriteHeader(code int) {
+	t.started = true
+	t.ResponseWriter.WriteHeader(code)
+}
+
+func (t *responseStartTracker) Write(b []byte) (int, error) {
+	t.started = true
+	return t.ResponseWriter.Write(b)
+}
+
+func (t *responseStartTracker) Flush() {
+	t.started = true
+	_ = http.NewResponseController(t.ResponseWriter).Flush()
+}
+
+// Unwrap lets http.ResponseController reach the underlying writer
+func (t *responseStartTracker) Unwrap() http.ResponseWriter {
+	return t.ResponseWriter
+}
+
+// responseStarted reports whether a response has already been started on w
+func responseStarted(w http.ResponseWriter) bool {
+	if t, ok := w.(*responseStartTracker); ok && t.started {
+		return true
+	}
+	return w.Header().Get("Content-Type") != ""
+}
